@@ -7,7 +7,8 @@
  *       every position in [lo,hi) x every other byte value: substitute, open
  *       the image.  mode 0 (default): zck_init_read; 1: zck_init_adv_read +
  *       zck_read_lead + zck_read_header; 2: as 1 with the header pinned to the
- *       given (genuine) hash type and digest string first.  Output:
+ *       given (genuine) hash type and digest string first; 3: the pins are set
+ *       AFTER zck_read_lead (setter results ignored, error cleared).  Output:
  *       "S <fileidx> <pos> <val> <mode>" for each open that SUCCEEDED, then
  *       "XEND <fileidx> <opens> <successes>".
  *   P <id> <fileidx> <patches|-> <ops...>
@@ -74,7 +75,18 @@ static int try_open_mode(int mode, int htype, const char *hexdigest) {
             zck_set_soption(z, ZCK_VAL_HEADER_DIGEST, hexdigest, strlen(hexdigest));
         if(!r) { fprintf(stderr, "pin refused\n"); exit(3); }
     }
-    r = r && zck_read_lead(z) && zck_read_header(z);
+    if(mode == 3) {
+        r = r && zck_read_lead(z);
+        if(r) {
+            bool a = zck_set_ioption(z, ZCK_VAL_HEADER_HASH_TYPE, htype);
+            bool b = zck_set_soption(z, ZCK_VAL_HEADER_DIGEST, hexdigest, strlen(hexdigest));
+            (void)a; (void)b;
+            zck_clear_error(z);
+            r = zck_read_header(z);
+        }
+    } else {
+        r = r && zck_read_lead(z) && zck_read_header(z);
+    }
     zck_free(&z);
     return r ? 1 : 0;
 }
@@ -152,7 +164,7 @@ int main(int argc, char **argv) {
             int mode = 0, htype = 0;
             char hexd[300] = "";
             int got = sscanf(line + 1, "%d %zu %zu %d %d %299s", &fi, &lo, &hi, &mode, &htype, hexd);
-            if(got < 3 || fi >= nfiles || (mode == 2 && got < 6)) return 3;
+            if(got < 3 || fi >= nfiles || (mode >= 2 && got < 6)) return 3;
             char id[64];
             snprintf(id, sizeof(id), "X-%d-%zu", fi, lo);
             mark(id);
